@@ -2,26 +2,19 @@ package main
 
 import (
 	"fmt"
-	"go/ast"
 
 	"daecheck/internal/core"
 )
 
 func main() {
-	p, err := core.Load(core.LoadOpts{Repo: "/repo", Tags: "dae_stub_ebpf", Variant: "stub"})
+	ov, err := core.RealBuildOverlay("/repo")
 	if err != nil {
 		panic(err)
 	}
-	f := p.Func("component/dns", "Dns.ResponseSelect")
-	g := f.Graph()
-	for _, cs := range g.Conds(func(e ast.Expr) bool { return core.ExprStr(e) == "!ok" }) {
-		fmt.Println(p.Pos(cs.Cond.Pos()), len(cs.True.Nodes))
-		for _, n := range cs.True.Nodes {
-			fmt.Printf("  %T %s\n", n, core.ExprStr2(n))
-			if as, ok := n.(*ast.AssignStmt); ok {
-				tv := f.Info().Types[as.Rhs[0]]
-				fmt.Println("   val", tv.Value)
-			}
-		}
+	p, err := core.Load(core.LoadOpts{Repo: "/repo", Variant: "real", Overlay: ov, Pattern: "./control"})
+	fmt.Println(err)
+	if p != nil {
+		f := p.Func("control", "cidrToBpfLpmKey")
+		fmt.Println(f != nil, p.NPkgs)
 	}
 }
